@@ -33,7 +33,8 @@ def col_cumsum(x: np.ndarray, init_zero: bool = False) -> np.ndarray:
         start = 0
 
     for j in range(p):
-        sums[start:, j] = np.cumsum(x[:, j])
+        # Accumulate in float64: integer input would overflow int64 for large values.
+        sums[start:, j] = np.cumsum(x[:, j].astype(np.float64))
 
     return sums
 
